@@ -254,6 +254,7 @@ fn main() {
                         .set("ops", J::Arr(r.ops.clone()))
                         .set("drop_order", J::Arr(r.drop_order.iter().map(|x| J::from(*x)).collect()))
                         .set("digests", J::Arr(r.digests.iter().map(|x| J::from(*x)).collect()))
+                        .set("vkinds", J::Arr(r.violations.iter().take(1).map(|v| J::from(v.kind.as_str())).collect()))
                         .set("violated", !r.violations.is_empty());
                     let _ = writeln!(f, "{}", rec.dump());
                 }
